@@ -202,7 +202,6 @@ Record cstate := {
   present : bool;             (* the manager's session map holds the controller *)
   mgr_up : bool;              (* false after Manager.Shutdown until NewManager *)
   disabled : bool;
-  lockh : option tid;         (* lifecycle lock *)
   loop : option loopst;
   sess_file : option bool;    (* persisted session: absent / Paused *)
   arch_file : option oentry;  (* persisted archive: absent / content *)
@@ -216,58 +215,53 @@ Record cstate := {
 
 Definition init_state (m : mode) (manual : bool) : cstate :=
   {| cfg_mode := m; cfg_manual := manual; created := false; present := false; mgr_up := true;
-     disabled := false; lockh := None; loop := None; sess_file := None; arch_file := None;
+     disabled := false; loop := None; sess_file := None; arch_file := None;
      arch_ver := 0; status := 0; threads := []; answered := []; next_gen := 0; tid_bound := 0 |}.
 
 Definition st_with_loop (st : cstate) (l : option loopst) : cstate :=
   {| cfg_mode := cfg_mode st; cfg_manual := cfg_manual st; created := created st; present := present st;
-     mgr_up := mgr_up st; disabled := disabled st; lockh := lockh st; loop := l; sess_file := sess_file st;
+     mgr_up := mgr_up st; disabled := disabled st; loop := l; sess_file := sess_file st;
      arch_file := arch_file st; arch_ver := arch_ver st; status := status st; threads := threads st;
      answered := answered st; next_gen := next_gen st; tid_bound := tid_bound st |}.
 Definition st_with_status (st : cstate) (s : nat) : cstate :=
   {| cfg_mode := cfg_mode st; cfg_manual := cfg_manual st; created := created st; present := present st;
-     mgr_up := mgr_up st; disabled := disabled st; lockh := lockh st; loop := loop st; sess_file := sess_file st;
+     mgr_up := mgr_up st; disabled := disabled st; loop := loop st; sess_file := sess_file st;
      arch_file := arch_file st; arch_ver := arch_ver st; status := s; threads := threads st;
-     answered := answered st; next_gen := next_gen st; tid_bound := tid_bound st |}.
-Definition st_with_lock (st : cstate) (h : option tid) : cstate :=
-  {| cfg_mode := cfg_mode st; cfg_manual := cfg_manual st; created := created st; present := present st;
-     mgr_up := mgr_up st; disabled := disabled st; lockh := h; loop := loop st; sess_file := sess_file st;
-     arch_file := arch_file st; arch_ver := arch_ver st; status := status st; threads := threads st;
      answered := answered st; next_gen := next_gen st; tid_bound := tid_bound st |}.
 Definition st_with_threads (st : cstate) (ths : list thread) : cstate :=
   {| cfg_mode := cfg_mode st; cfg_manual := cfg_manual st; created := created st; present := present st;
-     mgr_up := mgr_up st; disabled := disabled st; lockh := lockh st; loop := loop st; sess_file := sess_file st;
+     mgr_up := mgr_up st; disabled := disabled st; loop := loop st; sess_file := sess_file st;
      arch_file := arch_file st; arch_ver := arch_ver st; status := status st; threads := ths;
      answered := answered st; next_gen := next_gen st; tid_bound := tid_bound st |}.
 Definition st_with_sess (st : cstate) (s : option bool) : cstate :=
   {| cfg_mode := cfg_mode st; cfg_manual := cfg_manual st; created := created st; present := present st;
-     mgr_up := mgr_up st; disabled := disabled st; lockh := lockh st; loop := loop st; sess_file := s;
+     mgr_up := mgr_up st; disabled := disabled st; loop := loop st; sess_file := s;
      arch_file := arch_file st; arch_ver := arch_ver st; status := status st; threads := threads st;
      answered := answered st; next_gen := next_gen st; tid_bound := tid_bound st |}.
 Definition st_with_arch (st : cstate) (a : option oentry) : cstate :=
   {| cfg_mode := cfg_mode st; cfg_manual := cfg_manual st; created := created st; present := present st;
-     mgr_up := mgr_up st; disabled := disabled st; lockh := lockh st; loop := loop st; sess_file := sess_file st;
+     mgr_up := mgr_up st; disabled := disabled st; loop := loop st; sess_file := sess_file st;
      arch_file := a; arch_ver := S (arch_ver st); status := status st; threads := threads st;
      answered := answered st; next_gen := next_gen st; tid_bound := tid_bound st |}.
 Definition st_with_answered (st : cstate) (l : list tid) : cstate :=
   {| cfg_mode := cfg_mode st; cfg_manual := cfg_manual st; created := created st; present := present st;
-     mgr_up := mgr_up st; disabled := disabled st; lockh := lockh st; loop := loop st; sess_file := sess_file st;
+     mgr_up := mgr_up st; disabled := disabled st; loop := loop st; sess_file := sess_file st;
      arch_file := arch_file st; arch_ver := arch_ver st; status := status st; threads := threads st;
      answered := l; next_gen := next_gen st; tid_bound := tid_bound st |}.
 (* registration flags: created, present, mgr_up, disabled *)
 Definition st_with_flags (st : cstate) (cr pr up dis : bool) : cstate :=
   {| cfg_mode := cfg_mode st; cfg_manual := cfg_manual st; created := cr; present := pr;
-     mgr_up := up; disabled := dis; lockh := lockh st; loop := loop st; sess_file := sess_file st;
+     mgr_up := up; disabled := dis; loop := loop st; sess_file := sess_file st;
      arch_file := arch_file st; arch_ver := arch_ver st; status := status st; threads := threads st;
      answered := answered st; next_gen := next_gen st; tid_bound := tid_bound st |}.
 Definition st_with_bound (st : cstate) (b : nat) : cstate :=
   {| cfg_mode := cfg_mode st; cfg_manual := cfg_manual st; created := created st; present := present st;
-     mgr_up := mgr_up st; disabled := disabled st; lockh := lockh st; loop := loop st; sess_file := sess_file st;
+     mgr_up := mgr_up st; disabled := disabled st; loop := loop st; sess_file := sess_file st;
      arch_file := arch_file st; arch_ver := arch_ver st; status := status st; threads := threads st;
      answered := answered st; next_gen := next_gen st; tid_bound := b |}.
 Definition st_with_gen (st : cstate) (g : nat) : cstate :=
   {| cfg_mode := cfg_mode st; cfg_manual := cfg_manual st; created := created st; present := present st;
-     mgr_up := mgr_up st; disabled := disabled st; lockh := lockh st; loop := loop st; sess_file := sess_file st;
+     mgr_up := mgr_up st; disabled := disabled st; loop := loop st; sess_file := sess_file st;
      arch_file := arch_file st; arch_ver := arch_ver st; status := status st; threads := threads st;
      answered := answered st; next_gen := g; tid_bound := tid_bound st |}.
 
@@ -737,7 +731,7 @@ Definition goto (st : cstate) (t : tid) (pc : tpc) : cstate :=
 
 (* cancel the loop and keep the lock while waiting for done *)
 Definition cancel_and_join (st : cstate) (t : tid) (l : loopst) : option (cstate * list event) :=
-  Some (goto (st_with_lock (st_with_loop st (Some (l_with_cancel l true))) (Some t)) t TJoin, [ICancel t]).
+  Some (goto ((st_with_loop st (Some (l_with_cancel l true)))) t TJoin, [ICancel t]).
 
 (* the mode-specific tail of halt, with no loop running *)
 Definition halt_tail (st : cstate) (c : cmd) : cstate * list event :=
@@ -752,24 +746,31 @@ Definition halt_tail (st : cstate) (c : cmd) : cstate * list event :=
 
 (* the body of resume once no loop exists: mark unpaused, start connecting *)
 Definition resume_tail (st : cstate) (t : tid) : cstate * list event :=
-  (goto (st_with_lock (st_with_status (st_with_sess st (Some false)) 4) (Some t)) t (TConn Alpha true),
+  (goto ((st_with_status (st_with_sess st (Some false)) 4)) t (TConn Alpha true),
    [IWriteSession false]).
+
+(* the lifecycle lock is held by the thread that is inside its critical
+   section; acquiring it is possible when no thread is *)
+Definition holds_lock (th : thread) : bool :=
+  match th_pc th with TJoin | TResetArch | TResetResume | TConn _ _ => true | _ => false end.
+Definition locked (st : cstate) : bool := existsb holds_lock (threads st).
+
+Definition is_create (c : cmd) : bool := match c with CCreate _ => true | _ => false end.
 
 Definition is_halt (c : cmd) : bool :=
   match c with CPause | CShutdown | CTerminate => true | _ => false end.
 
 Definition acquire_step (st : cstate) (th : thread) : option (cstate * list event) :=
   let t := th_id th in
-  match lockh st with
-  | Some _ => None
-  | None =>
+  if locked st then None
+  else
     match th_cmd th with
     | CCreate paused =>
       if paused then
         Some (goto (st_with_flags (st_with_arch (st_with_sess st (Some true)) (Some None)) true true (mgr_up st) false)
                    t (TRet true),
               [IWriteSession true; IWriteArchive false None])
-      else Some (goto (st_with_lock st (Some t)) t (TConn Alpha true), [])
+      else Some (goto (st) t (TConn Alpha true), [])
     | CPause | CShutdown | CTerminate =>
       if disabled st then Some (goto st t (TRet false), [])
       else match loop st with
@@ -799,8 +800,7 @@ Definition acquire_step (st : cstate) (th : thread) : option (cstate * list even
              else Some (goto st t (TRet false), [])
            | None => Some (goto st t (TRet false), [])
            end
-    end
-  end.
+    end.
 
 Definition join_step (st : cstate) (th : thread) : option (cstate * list event) :=
   let t := th_id th in
@@ -810,7 +810,7 @@ Definition join_step (st : cstate) (th : thread) : option (cstate * list event) 
     match th_cmd th with
     | CPause | CShutdown | CTerminate =>
       let '(st1, evs) := halt_tail st (th_cmd th) in
-      Some (goto (st_with_lock st1 None) t (TRet true), evs)
+      Some (goto (st1) t (TRet true), evs)
     | CResume => Some (resume_tail st t)
     | CReset => Some (goto (st_with_sess st (Some true)) t TResetArch, [IWriteSession true])
     | _ => None
@@ -833,7 +833,7 @@ Definition conn_step (st : cstate) (th : thread) (s : side) (aok ok : bool) : op
     match th_cmd th with
     | CCreate _ =>
       if ok then Some (goto st t (TConn Beta true), [Cn Alpha true])
-      else Some (goto (st_with_lock st None) t (TRet false), [Cn Alpha false])
+      else Some (goto (st) t (TRet false), [Cn Alpha false])
     | _ => Some (goto (st_with_status st 5) t (TConn Beta ok), [Cn Alpha ok])
     end
   | Beta =>
@@ -842,11 +842,11 @@ Definition conn_step (st : cstate) (th : thread) (s : side) (aok ok : bool) : op
     | CCreate _ =>
       if ok then
         let st1 := st_with_flags (st_with_arch (st_with_sess st (Some false)) (Some None)) true true (mgr_up st) false in
-        Some (goto (st_with_lock (st_with_gen (st_with_loop st1 (Some (new_loop g true true))) (S g)) None) t (TRet true),
+        Some (goto (st_with_gen (st_with_loop st1 (Some (new_loop g true true))) (S g)) t (TRet true),
               [Cn Beta true; IWriteSession false; IWriteArchive false None; ILoopStart g])
-      else Some (goto (st_with_lock st None) t (TRet false), [Cn Beta false])
+      else Some (goto (st) t (TRet false), [Cn Beta false])
     | _ =>
-      Some (goto (st_with_lock (st_with_gen (st_with_loop st (Some (new_loop g aok ok))) (S g)) None) t (TRet (aok && ok)),
+      Some (goto (st_with_gen (st_with_loop st (Some (new_loop g aok ok))) (S g)) t (TRet (aok && ok)),
             [Cn Beta ok; ILoopStart g])
     end
   end.
@@ -903,6 +903,9 @@ Definition flush_recv_step (st : cstate) (th : thread) (g e : nat) (ch : flush_c
 Definition step (st : cstate) (a : action) : option (cstate * list event) :=
   match a with
   | ACall t c =>
+    (* thread identifiers are fresh. Create is called once; every other
+       command needs the session identifier that Create returns, so it can be
+       called only after Create has returned *)
     if Nat.leb (tid_bound st) t then
       let st0 := st_with_bound st (S t) in
       match c with
@@ -910,7 +913,10 @@ Definition step (st : cstate) (a : action) : option (cstate * list event) :=
         if created st then None
         else Some (st_with_threads (st_with_flags st0 true (present st) (mgr_up st) (disabled st))
                                    ({| th_id := t; th_cmd := c; th_pc := TStart |} :: threads st), [Ca t c])
-      | _ => Some (st_with_threads st0 ({| th_id := t; th_cmd := c; th_pc := TCalled |} :: threads st), [Ca t c])
+      | _ =>
+        if created st && negb (existsb (fun th => is_create (th_cmd th)) (threads st)) then
+          Some (st_with_threads st0 ({| th_id := t; th_cmd := c; th_pc := TCalled |} :: threads st), [Ca t c])
+        else None
       end
     else None
   | ASelect t =>
@@ -979,7 +985,7 @@ Definition step (st : cstate) (a : action) : option (cstate * list event) :=
       else match sess_file st with
            | Some p =>
              let g := next_gen st in
-             let st1 := st_with_lock (st_with_status (st_with_flags st (created st) true true false) 0) None in
+             let st1 := st_with_status (st_with_flags st (created st) true true false) 0 in
              if p then Some (st_with_loop st1 None, [Nm true])
              else Some (st_with_gen (st_with_loop st1 (Some (new_loop g false false))) (S g), [Nm true; ILoopStart g])
            | None => Some (st_with_loop (st_with_flags st (created st) false true (disabled st)) None, [Nm false])
